@@ -32,7 +32,7 @@ def bits_for(n):
 
 def cfg_ints(spec):
     maxlen = max(len(b) for _t, _i, b in spec["desc"])
-    out = [64, bits_for(maxlen)]
+    out = [int(spec.get("mps", 64)), bits_for(maxlen)]
     hs = spec.get("handlers", [])
     out.append(len(hs))
     for h in hs:
@@ -51,6 +51,14 @@ def make_spec(rng, shape=None, eps=None, handlers=None, profile=None):
     if handlers is None:
         handlers = rng.weighted([(5, []), (2, [["zlpreg", 2, 0x20]]), (1, [["zlpreg", 1, 0x22], ["zlpreg", 2, 0x22]])])
     spec = {"shape": shape, "desc": DH.descriptor_table(shape, rng), "eps": eps, "handlers": handlers}
+    if profile in MPS_PROFILES:
+        # control endpoint max_packet_size: 64 in 40 % of the cases, 8 / 16 / 32 in 20 % each (own fork: everything else of
+        # the case is what it was when every case ran 64).  The device descriptor's bMaxPacketSize0 is kept consistent
+        # (no host script parses it; the host knows the size from the spec, as a real host does after the first 8 bytes).
+        spec["mps"] = rng.fork("mps").weighted([(2, 64), (1, 8), (1, 16), (1, 32)])
+        if spec["mps"] != 64:
+            spec["desc"] = [[t, i, (list(b[:7]) + [spec["mps"]] + list(b[8:])) if (t == 1 and i == 0 and len(b) == 18) else b]
+                            for t, i, b in spec["desc"]]
     if profile == "c07":
         # C07 wants multi-packet control reads in most cases (other-endpoint traffic BETWEEN the data-stage INs):
         # give descriptor sets without a descriptor longer than two packets one more (a HID-report-like blob)
@@ -61,6 +69,9 @@ def make_spec(rng, shape=None, eps=None, handlers=None, profile=None):
     return spec
 
 
+MPS_PROFILES = ("c07", "c08", "c10")
+
+
 def claimed_by_extra(spec, su):
     t = (su[0] >> 5) & 3
     n = sum(1 for h in spec.get("handlers", []) if h[1] == t and h[2] == su[1])
@@ -68,8 +79,10 @@ def claimed_by_extra(spec, su):
 
 
 # ----------------------------------------------------------------------------- setup packet generators
-def rand_setup(rng, spec, profile):
-    """8 setup bytes.  profile 'c10' sweeps request codes / types; others favour the supported requests."""
+def rand_setup(rng, spec, profile, mps=64):
+    """8 setup bytes.  profile 'c10' sweeps request codes / types; others favour the supported requests.
+    `mps` = the control endpoint's max packet size (only the event-level Host passes it; with 64 the draws are what they
+    always were): for other sizes wLength of GET_DESCRIPTOR also takes values around the multiples of `mps`."""
     descs = spec["desc"]
 
     def get_descriptor():
@@ -77,7 +90,12 @@ def rand_setup(rng, spec, profile):
             t, i, b = rng.choice(descs)
         else:
             t, i, b = rng.choice([1, 2, 3, 6, 7, 0x21, 0xFF]), rng.choice([0, 1, 2, 9, 0xFF]), [0] * 18
-        ln = rng.choice([len(b), len(b), 8, 9, 18, 64, 63, 65, 128, 255, 512, 1, 2, 0, len(b) + 1, max(0, len(b) - 1)])
+        if mps == 64:
+            ln = rng.choice([len(b), len(b), 8, 9, 18, 64, 63, 65, 128, 255, 512, 1, 2, 0, len(b) + 1, max(0, len(b) - 1)])
+        else:
+            whole = (len(b) // mps) * mps
+            ln = rng.choice([len(b), len(b), len(b), 8, 9, 18, 64, 255, 512, 1, 0, len(b) + 1, max(0, len(b) - 1),
+                             mps, mps - 1, mps + 1, 2 * mps, 2 * mps + 1, 3 * mps - 1, whole, whole + mps, max(0, whole - 1)])
         return DH.setup_bytes(0x80, 6, (t << 8) | i, rng.choice([0, 0x0409]), ln)
 
     kinds = {
@@ -122,6 +140,9 @@ class Host:
     def __init__(self, rng, spec, profile, tags):
         self.rng, self.spec, self.profile, self.tags = rng, spec, profile, tags
         self.addr = 0                       # the address the host believes the device has
+        self.mps = int(spec.get("mps", 64))  # control endpoint max packet size (the host knows bMaxPacketSize0)
+        if self.mps != 64:
+            tags.add("mps<64")
         self.in_eps = [e[1] for e in spec["eps"] if e[0] in ("in", "sig")]
         self.stream_in = [e for e in spec["eps"] if e[0] == "in"]
         self.out_eps = [e for e in spec["eps"] if e[0] == "out"]
@@ -250,7 +271,7 @@ class Host:
     # -- one control transfer
     def control_transfer(self):
         rng = self.rng
-        kind, su = rand_setup(rng, self.spec, self.profile)
+        kind, su = rand_setup(rng, self.spec, self.profile, self.mps)
         self.tag("req:" + kind)
         is_in, length = bool(su[0] & 0x80), su[6] | (su[7] << 8)
         std = ((su[0] >> 5) & 3) == 0
@@ -302,7 +323,12 @@ class Host:
                     if h == "ack":
                         yield ["hs", ACK]
                         total += len(r.resp.payload)
-                        if len(r.resp.payload) < 64 or total >= length:
+                        if std and su[1] == 6:
+                            sfx = ":mps<64" if self.mps != 64 else ""
+                            self.tag("data-in:acked-packets:%s%s" % (_k + 1 if _k < 3 else "4+", sfx))
+                            if not r.resp.payload:
+                                self.tag("data-in:zlp-acked" + sfx)
+                        if len(r.resp.payload) < self.mps or total >= length:
                             break
                     elif h == "corrupt":
                         self.tag("hs:corrupt")
@@ -441,6 +467,7 @@ def make_wild_spec(rng):
     spec = make_spec(rng, shape=rng.choice(["std", "sparse", "long"]), eps=[], handlers=rng.choice([[], [["zlpreg", 2, 0x20]]]))
     big = [0xFF, 0x30] + [(i * 11 + 5) & 0xFF for i in range(1098)]          # 1100 bytes: position register = 11 bits
     spec["desc"] = spec["desc"] + [[0x30, 0, big]]
+    spec["mps"] = rng.fork("mps").weighted([(2, 64), (1, 8), (1, 16), (1, 32)])     # control max packet size (own fork)
     return spec
 
 
@@ -518,6 +545,7 @@ def monitor(log, spec):
         return ev[0]
 
     known_eps = {e[1] for e in spec["eps"]}
+    mps = int(spec.get("mps", 64))  # control endpoint max packet size: the host's data-stage bookkeeping counts in packets of it
     addr, cfgv = 0, 0              # registers after the previous event
     cur = None                     # the control transfer in progress (its SETUP was ACKed)
     tok = None                     # last token addressed to the device: (pid, ep)
@@ -538,7 +566,7 @@ def monitor(log, spec):
             if cur.pending_k is not None:
                 if cur.pending_k == k - 1 and kind == "hs" and ev[1] == ACK and tok == (I, 0):
                     cur.acked += 1
-                    if cur.pending_len < 64 or 64 * cur.acked >= cur.length or cur.request != 6:
+                    if cur.pending_len < mps or mps * cur.acked >= cur.length or cur.request != 6:
                         cur.data_done = True
                 cur.pending_k = None
             elif not (kind == "tok" and ev[2] == addr and ev[3] == 0):
@@ -590,7 +618,10 @@ def monitor(log, spec):
                                 else:
                                     t.data_seen = True
                                     if t.request == 6 and t.descriptor is not None:
-                                        want = t.descriptor[:t.length][64 * t.acked:64 * t.acked + 64]
+                                        # packet no. `acked` of the data stage: mps-sized slices of the first wLength
+                                        # bytes; the empty slice (= a zero-length packet) exactly when the total is a
+                                        # multiple of mps and smaller than wLength (otherwise data_done stopped the judging)
+                                        want = t.descriptor[:t.length][mps * t.acked:mps * t.acked + mps]
                                         wpid = D1 if t.acked % 2 == 0 else D0
                                         if resp.pid != wpid or list(resp.payload) != want:
                                             fail("C07", k, "c07-data-stage-disturbed",
@@ -791,12 +822,15 @@ def run_dev_case(desc, prop):
     tags.add("eps:%d" % len(spec["eps"]))
     tags.add("handlers:%d" % len(spec.get("handlers", [])))
     tags.add("mode:" + mode)
+    tags.add("mps:%d" % int(spec.get("mps", 64)))
     d = dict(desc)
     d["spec"] = spec
     return Case(cfg_ints(spec), inputs, outputs, fails, sorted(tags), d, NAMES_IN, NAMES_OUT)
 
 
-RULE = ("cases = (descriptor-set shape, extra endpoints, extra request handlers) x host script; 'legal' scripts are adaptive "
+RULE = ("cases = (descriptor-set shape, extra endpoints, extra request handlers, control max packet size: 64 in 40 % of the "
+        "cases, 8 / 16 / 32 in 20 % each -- the real USBDevice is built with USBControlEndpoint(max_packet_size=mps), the model "
+        "is Device.stepM with c.maxPacket = mps, the device descriptor's bMaxPacketSize0 is mps) x host script; 'legal' scripts are adaptive "
         "LegalHost schedules (control transfers with SETUP retries, abandoned transfers, lost/corrupted handshakes, bulk "
         "IN/OUT and other-device traffic between control stages, bus resets; every generated event is checked against the "
         "Lean predicate legalEvent), 'wild' scripts ignore transaction formats (correspondence only); between ALL "
@@ -807,10 +841,14 @@ RULE = ("cases = (descriptor-set shape, extra endpoints, extra request handlers)
         "optionally followed by the OUT transaction), bare IN/OUT/PING tokens to other endpoints without data/handshake, "
         "complete bulk IN/OUT transactions, transactions of other devices, SOFs, malformed packets; the monitor judges "
         "every data-stage IN of a running GET_STATUS/GET_DESCRIPTOR/GET_CONFIGURATION read (answered with DATA, and for "
-        "GET_DESCRIPTOR with exactly the next 64-byte slice and PID the host expects from its own count of ACKed packets) "
+        "GET_DESCRIPTOR with exactly the next mps-byte slice of the first wLength bytes -- a zero-length packet iff the total is a "
+        "multiple of mps and smaller than wLength -- and the PID the host expects from its own count of ACKed packets; the "
+        "legal host ends the data stage after a packet shorter than mps or wLength bytes; for mps < 64 wLength also takes "
+        "values around the multiples of mps) "
         "and the first well-formed status OUT (ACKed)")
 ASSUMPTIONS = [
-    "LegalHost (Model/Device/Control.lean legalEvent): data packets only directly after an OUT/SETUP token (or as another "
+    "LegalHost (Model/Device/Control.lean legalEvent; Model/Device/ControlM.lean legalEventM for the configured control max "
+    "packet size, the same predicate with 'short packet' = shorter than max_packet_size): data packets only directly after an OUT/SETUP token (or as another "
     "device's answer), host handshakes only directly after a DATA packet of the device (or another device's), SETUP tokens "
     "only to endpoint 0 and followed by DATA0, no further data-stage IN after the host ACKed a short packet, other endpoints "
     "of the device transmit only in transactions whose token names them",
